@@ -525,3 +525,107 @@ func init() {
 		return Tuple{(*Value)(nil), w.errorsNew(fr, "x509: malformed certificate (idealised)")}
 	}
 }
+
+// ---- time.Time.Sub: exact model without division (the real code checks u.Add(d).Equal(t), which needs
+// division by 10^9 and stalls every solver).  Domain: times without a monotonic reading. ----
+func init() {
+	models["(time.Time).Sub"] = func(fr *frame, a []Value) Value {
+		w := fr.w
+		T := w.T
+		t, u := a[0].(StructV), a[1].(StructV)
+		tw, uw := t[0].(*Term), u[0].(*Term)
+		te, ue := t[1].(*Term), u[1].(*Term)
+		mono := T.Bin(OpBOr, T.Bin(OpLShr, tw, T.Const(64, 63)), T.Bin(OpLShr, uw, T.Const(64, 63)))
+		if !w.decideBool(T.Eq(mono, T.Const(64, 0)), fr) {
+			w.outOfModel("time.Sub on a time with a monotonic clock reading")
+		}
+		w.assumptions["time.Time.Sub modelled exactly (saturating seconds*1e9+nanoseconds) for times without monotonic reading; differential-tested against the native function"] = true
+		// nsec = wall & (1<<30 - 1)
+		nmask := T.Const(64, 1<<30-1)
+		dns := T.Bin(OpSub, T.Bin(OpBAnd, tw, nmask), T.Bin(OpBAnd, uw, nmask)) // in (-1e9, 1e9)
+		ds := T.Bin(OpSub, te, ue)                                             // seconds difference (wraps only if |sec| ~ 2^63)
+		// the subtraction te-ue itself must not overflow: signed overflow iff operands differ in sign and result sign != te sign
+		ovf := T.And(T.Not(T.Eq(T.Bin(OpSLt, te, T.Const(64, 0)), T.Bin(OpSLt, ue, T.Const(64, 0)))),
+			T.Not(T.Eq(T.Bin(OpSLt, ds, T.Const(64, 0)), T.Bin(OpSLt, te, T.Const(64, 0)))))
+		const q = 9223372036 // MaxInt64 / 1e9
+		// total = ds*1e9 + dns with dns in (-1e9, 1e9); overflow thresholds by the sign of dns (no normalisation,
+		// which could itself overflow at ds = MinInt64)
+		negNs := T.Bin(OpSLt, dns, T.Const(64, 0))
+		c := func(v int64) *Term { return T.Const(64, uint64(v)) }
+		exact := T.Bin(OpAdd, T.Bin(OpMul, ds, c(1000000000)), dns)
+		maxD := T.Const(64, 1<<63-1)
+		minD := T.Const(64, 1<<63)
+		bigPos := T.Or(T.Bin(OpSLt, c(q), ds), T.And(T.Eq(ds, c(q)), T.Bin(OpSLt, c(854775807), dns)))
+		bigNeg := T.Or(T.Bin(OpSLt, c(q+1), ds), T.And(T.Eq(ds, c(q+1)), T.Bin(OpSLt, c(-145224193), dns)))
+		smallPos := T.Or(T.Bin(OpSLt, ds, c(-q-1)), T.And(T.Eq(ds, c(-q-1)), T.Bin(OpSLt, dns, c(145224192))))
+		smallNeg := T.Or(T.Bin(OpSLt, ds, c(-q)), T.And(T.Eq(ds, c(-q)), T.Bin(OpSLt, dns, c(-854775808))))
+		big := T.Ite(negNs, bigNeg, bigPos)
+		small := T.Ite(negNs, smallNeg, smallPos)
+		// on overflow of te-ue: t before u => min, else max
+		before := T.Bin(OpSLt, te, ue)
+		res := T.Ite(ovf, T.Ite(before, minD, maxD), T.Ite(big, maxD, T.Ite(small, minD, exact)))
+		if dns.IsConst() && dns.Val == 0 && !res.IsConst() {
+			// remember the structure: comparing this duration with a constant needs no multiplication
+			// (x*K > C  <=>  x > floor(C/K) when x*K does not overflow, which the guards establish)
+			if w.scaled == nil {
+				w.scaled = map[*Term]*scaledInfo{}
+			}
+			w.scaled[res] = &scaledInfo{ds: ds, k: 1000000000, ovf: ovf, before: before, big: big, small: small}
+		}
+		return res
+	}
+}
+
+// scaledInfo describes a saturating product res = sat(ds * k) as built by the time.Sub model.
+type scaledInfo struct {
+	ds                      *Term
+	k                       int64
+	ovf, before, big, small *Term
+}
+
+func floorDiv(a, b int64) int64 {
+	q := a / b
+	if (a%b != 0) && ((a < 0) != (b < 0)) {
+		q--
+	}
+	return q
+}
+
+func ceilDiv(a, b int64) int64 {
+	q := a / b
+	if (a%b != 0) && ((a < 0) == (b < 0)) {
+		q++
+	}
+	return q
+}
+
+// cmpScaled encodes (res OP c) for res described by si, OP in {<, <=, >, >=} given as "lt","le","gt","ge".
+func (w *Worker) cmpScaled(si *scaledInfo, op string, c int64) *Term {
+	T := w.T
+	cst := func(v int64) *Term { return T.Const(64, uint64(v)) }
+	cmpConst := func(v int64) *Term {
+		switch op {
+		case "lt":
+			return T.BoolC(v < c)
+		case "le":
+			return T.BoolC(v <= c)
+		case "gt":
+			return T.BoolC(v > c)
+		}
+		return T.BoolC(v >= c)
+	}
+	var inner *Term
+	switch op {
+	case "gt": // ds*k > c  <=> ds > floor(c/k)
+		inner = T.Bin(OpSLt, cst(floorDiv(c, si.k)), si.ds)
+	case "ge": // ds*k >= c <=> ds >= ceil(c/k)
+		inner = T.Bin(OpSLe, cst(ceilDiv(c, si.k)), si.ds)
+	case "lt": // ds*k < c  <=> ds < ceil(c/k)
+		inner = T.Bin(OpSLt, si.ds, cst(ceilDiv(c, si.k)))
+	default: // ds*k <= c <=> ds <= floor(c/k)
+		inner = T.Bin(OpSLe, si.ds, cst(floorDiv(c, si.k)))
+	}
+	const maxI, minI = int64(1<<63 - 1), int64(-1 << 63)
+	return T.Ite(si.ovf, T.Ite(si.before, cmpConst(minI), cmpConst(maxI)),
+		T.Ite(si.big, cmpConst(maxI), T.Ite(si.small, cmpConst(minI), inner)))
+}
